@@ -218,5 +218,14 @@ pub fn safety_cfgs() -> Vec<Cfg> {
         Cfg {
             modes: vec![CMode { name: "A".into(), pats: vec![la("a", 0, true, "a*"), CPat::new("é+b", 1)], transitions: vec![(0, 1)] }, CMode { name: "B".into(), pats: vec![], transitions: vec![] }],
         },
+        // two modes that are equal in everything (name, patterns, transitions), the second copy
+        // reachable only through a transition to its index
+        Cfg {
+            modes: vec![
+                CMode { name: "A".into(), pats: vec![CPat::new("a", 0), CPat::new("[0-9]+", 1)], transitions: vec![(1, 2)] },
+                CMode { name: "B".into(), pats: vec![CPat::new("b", 0)], transitions: vec![(0, 0)] },
+                CMode { name: "A".into(), pats: vec![CPat::new("a", 0), CPat::new("[0-9]+", 1)], transitions: vec![(1, 2)] },
+            ],
+        },
     ]
 }
